@@ -126,11 +126,11 @@ Proof.
     set (os := if o1 =? 0 then 8 else o1). set (ls := if l1 =? 0 then 8 else l1).
     destruct (valid_size os && valid_size ls) eqn:Ev2; cbn [negb]; [|left; reflexivity].
     apply andb_true_iff in Ev2. destruct Ev2 as [Vo _]. apply valid_size_le8 in Vo.
-    rewrite (read_value_agree b b' g' Hlen H3 64 os false) by blia.
-    destruct (read_value b 64 os false); cbn [obind]; [|left; reflexivity|left; reflexivity].
-    rewrite (read_value_agree b b' g' Hlen H3 80 os false) by blia.
-    destruct (read_value b 80 os false); cbn [obind]; [|left; reflexivity|left; reflexivity].
-    rewrite (read_value_agree b b' g' Hlen H3 88 os false) by blia.
+    rewrite (read_value_agree b b' g' Hlen H3 (24 + 4 * os + os) os false) by blia.
+    destruct (read_value b (24 + 4 * os + os) os false); cbn [obind]; [|left; reflexivity|left; reflexivity].
+    rewrite (read_value_agree b b' g' Hlen H3 (24 + 4 * os + 2 * os + 8) os false) by blia.
+    destruct (read_value b (24 + 4 * os + 2 * os + 8) os false); cbn [obind]; [|left; reflexivity|left; reflexivity].
+    rewrite (read_value_agree b b' g' Hlen H3 (24 + 4 * os + 2 * os + 8 + os) os false) by blia.
     left; reflexivity.
   - (* versions 2 and 3: bytes up to 12 + 4*8 = 44 are decoded *)
     rewrite (index_agree b b' g' Hlen H3 9) by blia.
